@@ -7,3 +7,4 @@ TIER=${3:-quick}
 for id in $IDS; do for s in $SEEDS; do
   out=$(VERIF_SEED=$s timeout 9000 /venv/bin/python -m vlib.run $id --tier $TIER 2>&1 | sed 's/\x1b\[[0-9;]*m//g' | cut -c1-500 | tail -4); rc=$?
   echo "$out" | grep -q "unlisted_signatures=0" && echo "OK   $id seed=$s $(echo "$out" | tail -1 | sed 's/.*evaluations/evaluations/')" || { echo "FAIL $id seed=$s"; echo "$out"; }
+done; done
